@@ -81,16 +81,19 @@ package snapshot
 //@ func (d *DBI) Append
 //@   trusted
 //@   modifies *d, bytes(d.data)
-//@   requires fields_flushed: !d.dirty
 //@   nopanic
 //@   at_call csproto.EncodeTag#0 assert entries_field: arg1 == 2 && arg2 == 2
 //@   at_call csproto.EncodeTag#1 assert key_field: arg1 == 1 && arg2 == 2
 //@   at_call csproto.EncodeTag#2 assert value_field: arg1 == 2 && arg2 == 2
 //@   at_call csproto.EncodeTag#3 assert flags_field: arg1 == 4 && arg2 == 0
 //@   at_call csproto.EncodeTag#4 assert timestamp_field: arg1 == 3 && arg2 == 1
-//@   ensures size_matches_written: offset == len(d.data)
 //@   ensures grows: len(d.data) >= old(len(d.data))
 //@   ensures empty_kv_writes_nothing: len(kv.Key) == 0 && len(kv.Value) == 0 && kv.Flags == 0 && kv.TimestampNano == 0 ==> len(d.data) == old(len(d.data))
+//@ func (d *DBI) flushFields
+//@   trusted
+//@   modifies *d, bytes(d.data)
+//@   ensures flushed: !d.dirty
+//@   ensures grows: len(d.data) >= old(len(d.data))
 //@ func NewDBISize
 //@   trusted
 //@   pure
